@@ -35,11 +35,12 @@ def REAL(**kw):
     return Env("real", **kw)
 
 
-def start_real_growers(env, nb, K, deltas):
+def start_real_growers(env, nb, K, deltas, buf=False):
     """real mode: growers are real threads gated step by step on the real disk"""
     from ..realsched import RealSteps
 
     rs = RealSteps(K)
+    rs.buffered = buf
     rs.install(env, cp)
     rdir = crop_dir(env) + "/results"
     for g in range(1, nb + 1):
@@ -64,7 +65,7 @@ def record_growers(env, crop, nb):
     return base, logs
 
 
-def body_wait(E, nb, per, K, base, d0, d1, d2, d3, d4, d5, d6, d7, d8, d9):
+def body_wait(E, nb, per, K, base, d0, d1, d2, d3, d4, d5, d6, d7, d8, d9, buf=False):
     nb = concretize(nb, 1, 2)
     per = concretize(per, 1, 2)
     K = concretize(K, 2, 3)
@@ -78,10 +79,11 @@ def body_wait(E, nb, per, K, base, d0, d1, d2, d3, d4, d5, d6, d7, d8, d9):
         rs = None
         if env.mode == "sym":
             env.fs.K = K
+            env.fs.buffered = cbool(buf)
             bfiles, logs = record_growers(env, crop, nb)
             env.fs.begin_timeline(bfiles, logs, deltas)
         else:
-            rs = start_real_growers(env, nb, K, deltas)
+            rs = start_real_growers(env, nb, K, deltas, cbool(buf))
         reader = cp.Crop(name="t", parent_dir=env.parent)
         try:
             out = reader.reap(wait=True)       # must neither fail nor use a partly written result
@@ -91,7 +93,7 @@ def body_wait(E, nb, per, K, base, d0, d1, d2, d3, d4, d5, d6, d7, d8, d9):
         return out == ref and not env.exists(crop_dir(env))
 
 
-def body_poll(E, nb, K, base, d0, d1, d2, d3, d4, d5, d6, d7, d8, d9):
+def body_poll(E, nb, K, base, d0, d1, d2, d3, d4, d5, d6, d7, d8, d9, buf=False):
     """a progress poller: num_results / is_ready_to_reap / missing_results during the growing"""
     nb = concretize(nb, 1, 2)
     K = concretize(K, 2, 3)
@@ -105,6 +107,7 @@ def body_poll(E, nb, K, base, d0, d1, d2, d3, d4, d5, d6, d7, d8, d9):
         if env.mode == "sym":
             fs = env.fs
             fs.K = K
+            fs.buffered = cbool(buf)
             bfiles, logs = record_growers(env, crop, nb)
             fs.begin_timeline(bfiles, logs, deltas)
 
@@ -118,7 +121,7 @@ def body_poll(E, nb, K, base, d0, d1, d2, d3, d4, d5, d6, d7, d8, d9):
         else:
             import pickle
 
-            rs = start_real_growers(env, nb, K, deltas)
+            rs = start_real_growers(env, nb, K, deltas, cbool(buf))
 
             def complete_now():
                 out = []
@@ -161,34 +164,116 @@ def _poll(env, poller, nb, complete_now, rs):
         return poller.is_ready_to_reap() and poller.num_results == nb and poller.missing_results() == ()
 
 
+def body_same_batch(E, K, buf, base, i, j, d0, d1, d2, d3):
+    """the SAME batch grown by two workers at once, and a waiting reaper: grower A performs i file
+    operations, then grower B performs j, then A finishes, then B finishes (every i, j: the two-switch family
+    of interleavings) x every placement of the reader's observations"""
+    K = concretize(K, 2, 2)
+    i = concretize(i, 0, 4)
+    j = concretize(j, 0, 4)
+    fn = mkfn(base)
+    with E() as env:
+        ref = combo_runner(fn, grid(2), verbosity=0)
+        crop = cp.Crop(fn=fn, name="t", parent_dir=env.parent, batchsize=2)
+        crop.sow_combos(grid(2), verbosity=0)
+        rs = None
+        if env.mode == "sym":
+            fs = env.fs
+            fs.K = K
+            fs.buffered = cbool(buf)
+            basef = dict(fs.files)
+            oplists = []
+            for g in range(2):
+                fs.files = dict(basef)
+                cp.os.pid = 4242 + g               # two different worker processes
+                fs.start_op_recording()
+                cp.grow(1, crop=crop, verbosity=0)
+                oplists.append(fs.stop_op_recording())
+            cp.os.pid = 5000
+            fs.files = dict(basef)
+            order = [0] * i + [1] * j + [0] * len(oplists[0]) + [1] * len(oplists[1])
+            log = fs.merged_logs(basef, oplists, order)
+            fs.begin_timeline(basef, [log], [d0, d1, d2, d3])
+        else:
+            from ..realsched import RealSteps
+
+            rs = RealSteps(K)
+            rs.buffered = cbool(buf)
+            rs.install(env, cp)
+            rdir = crop_dir(env) + "/results"
+            for g in range(2):
+                gcrop = cp.Crop(name="t", parent_dir=env.parent)
+                rs.start_writer((lambda cc: (lambda: cp.grow(1, crop=cc, verbosity=0)))(gcrop),
+                                paths={rdir + "/xyz-result-1.jbdmp"})
+            rs.global_order = [0] * i + [1] * j + [0] * 8 + [1] * 8
+            rs.deltas = [int(d) for d in (d0, d1, d2, d3)]
+        reader = cp.Crop(name="t", parent_dir=env.parent)
+        try:
+            out = reader.reap(wait=True, clean_up=False)
+        finally:
+            if rs is not None:
+                rs.finish_all()
+        return out == ref
+
+
+def searching(body):
+    """Real-mode replay: the real disk's step granularity can differ from StepFS's for a changed library, so
+    if the solver's schedule itself does not fail there, a bounded family of schedules (first three
+    observations advanced by 0..3 steps each) is tried; the replay fails if any of them fails."""
+
+    def wrapped(E, **kw):
+        if E is not REAL:
+            return body(E, **kw)
+        if not body(E, **kw):
+            return False
+        for a in range(4):
+            for b in range(4):
+                for c in range(3):
+                    k2 = dict(kw)
+                    k2.update(d0=a, d1=b, d2=c)
+                    if not body(E, **k2):
+                        return False
+        return True
+
+    return wrapped
+
+
 BODIES = {}
 _G = globals()
-_D = " ".join("d%d:int" % i for i in range(10))
+_D = " ".join("d%d:int" % i for i in range(10)) + " buf:bool"
 _DR = " and ".join("0 <= d%d <= 4" % i for i in range(10))
 
 CONDS = [
-    make_cond(_G, "wait", body_wait, "per:int base:int " + _D, ["1 <= per <= 2", _DR], fixed=dict(nb=1, K=2), timeout=600,
+    make_cond(_G, "wait", searching(body_wait), "per:int base:int " + _D, ["1 <= per <= 2", _DR], fixed=dict(nb=1, K=2), timeout=600,
               bounds="1 grower / 1 batch (1-2 settings), result written in K=2 chunks; reap(wait=True) by a fresh "
                      "Crop; every placement of the reader's observations (exists-poll, isfile, isfile, open+load) "
                      "relative to the writer's steps"),
-    make_cond(_G, "wait2", body_wait, "base:int " + _D, [_DR], fixed=dict(nb=2, per=1, K=2), timeout=900,
+    make_cond(_G, "wait2", searching(body_wait), "base:int " + _D, [_DR], fixed=dict(nb=2, per=1, K=2), timeout=900,
               bounds="2 growers / 2 batches running concurrently with the waiting reaper, K=2"),
-    make_cond(_G, "poll", body_poll, "base:int " + _D, [_DR], fixed=dict(nb=1, K=2), timeout=600,
+    make_cond(_G, "poll", searching(body_poll), "base:int " + _D, [_DR], fixed=dict(nb=1, K=2), timeout=600,
               bounds="1 grower; a poller calling num_results / is_ready_to_reap / missing_results three times at "
                      "solver-chosen instants: never counts a partly written result"),
-    make_cond(_G, "poll2", body_poll, "base:int " + _D, [_DR], fixed=dict(nb=2, K=2), timeout=900, tiers=("thorough",),
+    make_cond(_G, "poll2", searching(body_poll), "base:int " + _D, [_DR], fixed=dict(nb=2, K=2), timeout=900, tiers=("thorough",),
               bounds="2 growers and the poller"),
+] + split_conds(_G, "same_batch", body_same_batch, "base:int i:int j:int d0:int d1:int d2:int d3:int",
+              ["0 <= i <= 4 and 0 <= j <= 4 and 0 <= d0 <= 4 and 0 <= d1 <= 4 and 0 <= d2 <= 4 and 0 <= d3 <= 4"],
+              "buf", [False, True], fixed=dict(K=2), timeout=900,
+              bounds="the same batch grown by two workers at the same time: grower A performs i operations, B "
+                     "performs j, A finishes, B finishes (all i, j in 0..4; POSIX open-file semantics: truncation in "
+                     "place, writes follow a renamed file), observed by a reap(wait=True) at every placement: the "
+                     "reaper returns exactly the direct-run result") + [
     make_cond(_G, "wait_k3", body_wait, "nb:int base:int " + _D, ["1 <= nb <= 2", _DR], fixed=dict(per=1, K=3),
               timeout=1800, tiers=("thorough",), bounds="as wait/wait2 with K=3 chunks"),
 ]
 
 ASSUMPTIONS = [
-    "StepFS: every file mutation is an atomic step (create/truncate, each of K chunk writes, replace, remove); a "
+    "StepFS: every file mutation is an atomic step (create/truncate, each of K chunk writes - issued during "
+    "pickle.dump or, in buffered mode, when the handle is closed -, replace, remove); a "
     "file with fewer than K chunks cannot be unpickled (lemma checked on real pickles on every run); torn writes "
     "below chunk level, NFS close-to-open anomalies, more than one reaper are outside the claim",
     "interleavings are explored up to partial-order equivalence for writers of distinct files (per-file monotone "
-    "positions); the same batch grown twice is covered for the atomic-publication scheme by construction (each "
-    "grower writes its own temporary file and os.replace is atomic) but not explored",
+    "positions); the same batch grown twice is explored by re-executing the two growers' recorded operations in a "
+    "solver-chosen merge order under POSIX open-file semantics",
     "time.sleep replaced by a fair-scheduler clock: after a sleep the awaited writer has made progress",
     "counterexamples are replayed on the real disk with the growers as real threads gated step by step "
     "(vf/realsched.py) in the schedule the solver found",
